@@ -230,7 +230,10 @@ class HtmlProgressObserver(SimpleProgressObserver):
         self._output_fn = output
 
     def _render(self, state, new_exception_index, exception_tuples, elapsed):
-        return _render_html(state, exception_tuples, elapsed).encode()
+        # Scope values may contain characters that UTF-8 cannot encode (lone surrogates, e.g. in file names).
+        return _render_html(state, exception_tuples, elapsed).encode(
+            errors="backslashreplace"
+        )
 
     def _output(self, value):
         self._output_fn(value)
